@@ -1,21 +1,38 @@
 #!/usr/bin/env python3
-"""setup_cmd: build the whole Coq development (full .vo) and warm the Go build cache for every driver."""
-import os, sys, glob, subprocess, concurrent.futures
+"""setup_cmd: build the whole Coq development (full .vo, file by file with coqc, several property directories in
+parallel, every file under a time limit) and warm the Go build cache for every driver."""
+import os, sys, glob, subprocess, concurrent.futures, time
 ROOT = os.path.dirname(os.path.dirname(os.path.abspath(__file__)))
 sys.path.insert(0, os.path.join(ROOT, "lib"))
 import vlib
-ok, log = vlib.coq_make_all(timeout=7200)
-print(log[-3000:])
-if not ok:
-    print("WARNING: Coq build incomplete"); 
+t0 = time.time()
+dirs = sorted(os.path.basename(d.rstrip("/")) for d in glob.glob(os.path.join(vlib.THEORIES, "*", "")))
+def build(d):
+    ok, log = vlib.coq_build(vlib.prop_targets(d), timeout=2400, per_file=900)
+    return d, ok, log
+bad = []
+with concurrent.futures.ThreadPoolExecutor(12) as ex:
+    for d, ok, log in ex.map(build, ["Common"] + [d for d in dirs if d != "Common"]):
+        print("coq %-8s %s  (%.0fs)" % (d, "ok" if ok else "INCOMPLETE", time.time() - t0), flush=True)
+        if not ok:
+            bad.append(d); print(log[-1500:])
 def warm(p):
+    if not glob.glob(os.path.join(vlib.HARNESS, p, "cmd", "*.go")):
+        return p, True, ""
     ctx = vlib.Ctx(p)
-    if glob.glob(os.path.join(vlib.HARNESS, p, "cmd", "*.go")):
-        exe, l = vlib.go_build(ctx)
-        return p, exe is not None, l[-500:]
-    return p, True, ""
+    dirs = [p]
+    try:
+        import importlib.util
+        spec = importlib.util.spec_from_file_location("prop_" + p, os.path.join(ROOT, "props", p + ".py"))
+        mod = importlib.util.module_from_spec(spec); spec.loader.exec_module(mod)
+        dirs = getattr(mod, "CFG", {}).get("harness_dirs") or [p]
+    except Exception:
+        pass
+    exe, l = vlib.go_build(ctx, dirs, timeout=1500)
+    return p, exe is not None, l[-300:]
 props = sorted(os.path.basename(d) for d in glob.glob(os.path.join(vlib.HARNESS, "C*")))
 with concurrent.futures.ThreadPoolExecutor(4) as ex:
     for p, ok2, l in ex.map(warm, props):
-        print(p, "driver ok" if ok2 else "driver FAILED " + l)
-sys.exit(0 if ok else 1)
+        print("go  %-8s %s  (%.0fs)" % (p, "driver ok" if ok2 else "driver not built here (the check builds it itself): " + l, time.time() - t0), flush=True)
+print("setup done in %.0fs; coq incomplete: %s" % (time.time() - t0, bad))
+sys.exit(0)
